@@ -177,3 +177,10 @@ def rules(t):
     out.append(W3.wire_narrowing(t, "C03.i"))
     out.append(W3.emit_once(t, "C03.j"))
     return out
+
+_rules_C03_w6 = rules
+def rules(t, *a, **kw):
+    import rules.wave6 as W6
+    out = _rules_C03_w6(t, *a, **kw)
+    out.append(W6.complete_means_removed(t, "C03.k"))
+    return out
